@@ -21,7 +21,64 @@ def plan(tier, seed):
     for sch in (["CJJ14.PiBas", "DP17.Pi", "CJJ14.Pi2Lev"] if tier == "quick" else gen.SCHEMES):
         specs.append({"name": f"marathon-{gen.SHORT[sch]}", "kind": "marathon", "scheme": sch,
                       "searches": 66000, "budget_s": 200 if tier == "quick" else 900})
+    # one long-lived scheme object and key re-indexing a changing collection, each index dropped after use (whatever
+    # the object remembers about an index must not outlive it)
+    for sch in gen.SCHEMES:
+        specs.append({"name": f"rolling-{gen.SHORT[sch]}", "kind": "rolling", "scheme": sch,
+                      "rounds": 120 if tier == "quick" else 3000, "budget_s": 60 if tier == "quick" else 400})
     return specs
+
+
+def run_rolling(spec, acc, ctx):
+    import gc
+    scheme = spec["scheme"]
+    short = gen.SHORT[scheme]
+    rng = ctx.rng
+    cfg = gen.default_config(scheme)
+    if scheme == "CGKO06.SSE1":
+        cfg.update(param_s=64, param_dictionary_size=16)
+    if scheme == "CGKO06.SSE2":
+        cfg["param_n"] = 12
+    cp = gen.caps(scheme, cfg)
+    try:
+        sch = sse.loader(scheme).SSEScheme(cfg)
+        key = sch.KeyGen()
+        pool = gen.gen_ids(rng, cp["id_size"], 12)
+        words = [gen.gen_keyword(rng, min(cp["kw_limit"], 12), set(), 3) for _ in range(4)]
+        words = list(dict.fromkeys(words))
+    except Exception as e:
+        acc.note(f"{short}: rolling setup failed {exc_site(e)}")
+        return
+    acc.count("cases")
+    acc.count("cases." + short)
+    acc.count("histories")
+    acc.count("histories." + short)
+    for rnd in range(spec["rounds"]):
+        if ctx.out_of_time():
+            break
+        db = {w: rng.sample(pool, rng.randint(1, 4)) for w in words if rng.random() < 0.85} or {words[0]: pool[:2]}
+        try:
+            edb = sch.EDBSetup(key, copy.deepcopy(db))
+            for w in words:
+                got = norm(scheme, sch.Search(edb, sch.TokenGen(key, w)).get_result_list())
+                want = norm(scheme, db.get(w, []))
+                acc.count("history_searches")
+                acc.count("rolling_searches")
+                if got != want:
+                    acc.violation(f"{short}:history-result-differs",
+                                  f"version {rnd} of a collection re-indexed by one scheme object under one key (earlier "
+                                  f"indexes dropped): a search returns {len(got)} ids, this version holds {len(want)}",
+                                  sse.case_desc(scheme, "default", cfg, "rolling", db, {"round": rnd}))
+                    return
+        except Exception as e:
+            acc.violation(f"{short}:history-search-raised:{exc_site(e)}", f"rolling re-index round {rnd}: "
+                                                                          f"{type(e).__name__}: {e}", {"scheme": scheme})
+            return
+        del edb
+        if rnd % 7 == 0:
+            gc.collect()
+    acc.add("distinct", sse.case_fp(scheme, "rolling", {b"r": [bytes([1])]}))
+    acc.add("rolling_schemes", scheme)
 
 
 def run_marathon(spec, acc, ctx):
@@ -200,6 +257,9 @@ def run_shard(spec, acc, ctx):
     if spec.get("kind") == "marathon":
         run_marathon(spec, acc, ctx)
         return
+    if spec.get("kind") == "rolling":
+        run_rolling(spec, acc, ctx)
+        return
     gen.MIXED_ID_SIZES = True
     scheme = spec["scheme"]
     short = gen.SHORT[scheme]
@@ -272,6 +332,7 @@ def finish(m, tier, seed):
         "repeated_searches": c.get("repeated_searches", 0),
         "long_histories_over_more_than_30_distinct_keywords": c.get("long_histories", 0),
         "searches_in_histories_of_66000_on_one_index": c.get("marathon_searches", 0),
+        "searches_on_rolling_re_indexes_of_one_object": c.get("rolling_searches", 0),
         "edb_byte_comparisons": c.get("intact.edb_checked", 0),
         "module_default_config_passed_by_reference": c.get("module_default_passed", 0),
         "setup_failed": c.get("setup_failed", 0),
